@@ -45,6 +45,20 @@ def required : Op → Option (List Need)
   | .putObjectTagging b k _ => some [⟨b, .write, actPutObjectTagging, k⟩]
   | .getObjectTagging b k => some [⟨b, .read, actGetObjectTagging, k⟩]
   | .deleteObjectTagging b k => some [⟨b, .write, actDeleteObjectTagging, k⟩]
+  | .listVersions b => some [⟨b, .read, actListVersions, []⟩]
+  | .putLockConfig b _ _ _ => some [⟨b, .write, actPutLockCfg, []⟩]
+  | .getLockConfig b => some [⟨b, .read, actGetLockCfg, []⟩]
+  | .putRetention b k _ _ _ => some [⟨b, .write, actPutRetention, k⟩]
+  | .getRetention b k _ => some [⟨b, .read, actGetRetention, k⟩]
+  | .putLegalHold b k _ _ => some [⟨b, .write, actPutLegalHold, k⟩]
+  | .getLegalHold b k _ => some [⟨b, .read, actGetLegalHold, k⟩]
+  | .createUpload b k _ _ => some [⟨b, .write, actPutObject, k⟩]
+  | .uploadPart b k _ _ _ _ => some [⟨b, .write, actPutObject, k⟩]
+  | .uploadPartCopy b k _ _ sb sk _ _ _ => some [⟨b, .write, actPutObject, k⟩, ⟨sb, .read, actGetObject, sk⟩]
+  | .listParts b k _ => some [⟨b, .read, actListParts, k⟩]
+  | .listUploads b => some [⟨b, .read, actListUploads, []⟩]
+  | .completeUpload b k _ _ _ _ => some [⟨b, .write, actPutObject, k⟩]
+  | .abortUpload b k _ => some [⟨b, .write, actAbortUpload, k⟩]
 
 /-- the requirement is granted in state `s` -/
 def Granted (cfg : Cfg) (s : State) (w : Who) (n : Need) : Prop :=
@@ -64,6 +78,33 @@ theorem guarded_ok (c : Option String) (s : State) (k : Unit → State × Resp) 
   · exact absurd h (errR_code_ne _)
   · rfl
 
+/-- the access check of both copy paths (VerifyObjectCopyAccess): passing it means destination
+write and source read were granted -/
+theorem copy_chk (cfg : Cfg) (s : State) (w : Who) (bk : Bucket) (b k sb sk : Bytes)
+    (hnr : w.isRoot = false) (hna : (w.role == .admin) = false) (hb : findBucket s b = some bk)
+    (hnone : (if cfg.readonly then some "AccessDenied" else
+      if w.isRoot || w.role == .admin then none else
+      match verifyAccess cfg bk w .write actPutObject k with
+      | some e => some e
+      | none =>
+        match findBucket s sb with
+        | none => some "NoSuchBucket"
+        | some sbk => verifyAccess cfg sbk w .read actGetObject sk) = none) :
+    ∀ n ∈ [(⟨b, .write, actPutObject, k⟩ : Need), ⟨sb, .read, actGetObject, sk⟩], Granted cfg s w n := by
+  simp only [hnr, hna, Bool.or_self, Bool.false_eq_true, if_false] at hnone
+  split at hnone
+  · simp at hnone
+  · split at hnone
+    · simp at hnone
+    · rename_i hdst
+      split at hnone
+      · simp at hnone
+      · rename_i sbk hsb
+        intro n hn; simp at hn
+        rcases hn with rfl | rfl
+        · exact ⟨bk, hb, hdst⟩
+        · exact ⟨sbk, hsb, hnone⟩
+
 /-- **Success implies every requirement was granted.** For every caller that is neither root nor
 an admin (those are exempt by design), every state and every operation: if the answer is a
 success, then each (action, resource) the specification table demands was granted by
@@ -73,66 +114,12 @@ theorem success_implies_granted (cfg : Cfg) (s : State) (w : Who) (now : Int) (o
     (hok : (handle cfg s w now op).2.code = "") :
     ∀ n ∈ needs, Granted cfg s w n := by
   cases op <;> simp only [required, Option.some.injEq, reduceCtorEq] at hreq <;> subst hreq <;> simp only [handle] at hok
-  case deleteBucket b =>
-    obtain ⟨bk, hb, h⟩ := withBucket_ok _ _ _ hok
-    intro n hn; simp at hn; subst hn; exact ⟨bk, hb, guarded_ok _ _ _ h⟩
-  case headBucket b =>
-    obtain ⟨bk, hb, h⟩ := withBucket_ok _ _ _ hok
-    intro n hn; simp at hn; subst hn; exact ⟨bk, hb, guarded_ok _ _ _ h⟩
-  case putBucketPolicy b p v =>
-    obtain ⟨bk, hb, h⟩ := withBucket_ok _ _ _ hok
-    intro n hn; simp at hn; subst hn; exact ⟨bk, hb, guarded_ok _ _ _ h⟩
-  case getBucketPolicy b =>
-    obtain ⟨bk, hb, h⟩ := withBucket_ok _ _ _ hok
-    intro n hn; simp at hn; subst hn; exact ⟨bk, hb, guarded_ok _ _ _ h⟩
-  case deleteBucketPolicy b =>
-    obtain ⟨bk, hb, h⟩ := withBucket_ok _ _ _ hok
-    intro n hn; simp at hn; subst hn; exact ⟨bk, hb, guarded_ok _ _ _ h⟩
   case putBucketAcl b a =>
     obtain ⟨bk, hb, h⟩ := withBucket_ok _ _ _ hok
     intro n hn; simp at hn; subst hn
     split at h
     · exact absurd h (errR_code_ne _)
     · exact ⟨bk, hb, guarded_ok _ _ _ h⟩
-  case getBucketAcl b =>
-    obtain ⟨bk, hb, h⟩ := withBucket_ok _ _ _ hok
-    intro n hn; simp at hn; subst hn; exact ⟨bk, hb, guarded_ok _ _ _ h⟩
-  case putBucketTagging b t =>
-    obtain ⟨bk, hb, h⟩ := withBucket_ok _ _ _ hok
-    intro n hn; simp at hn; subst hn; exact ⟨bk, hb, guarded_ok _ _ _ h⟩
-  case getBucketTagging b =>
-    obtain ⟨bk, hb, h⟩ := withBucket_ok _ _ _ hok
-    intro n hn; simp at hn; subst hn; exact ⟨bk, hb, guarded_ok _ _ _ h⟩
-  case deleteBucketTagging b =>
-    obtain ⟨bk, hb, h⟩ := withBucket_ok _ _ _ hok
-    intro n hn; simp at hn; subst hn; exact ⟨bk, hb, guarded_ok _ _ _ h⟩
-  case putOwnership b o =>
-    obtain ⟨bk, hb, h⟩ := withBucket_ok _ _ _ hok
-    intro n hn; simp at hn; subst hn; exact ⟨bk, hb, guarded_ok _ _ _ h⟩
-  case getOwnership b =>
-    obtain ⟨bk, hb, h⟩ := withBucket_ok _ _ _ hok
-    intro n hn; simp at hn; subst hn; exact ⟨bk, hb, guarded_ok _ _ _ h⟩
-  case deleteOwnership b =>
-    obtain ⟨bk, hb, h⟩ := withBucket_ok _ _ _ hok
-    intro n hn; simp at hn; subst hn; exact ⟨bk, hb, guarded_ok _ _ _ h⟩
-  case putVersioning b e =>
-    obtain ⟨bk, hb, h⟩ := withBucket_ok _ _ _ hok
-    intro n hn; simp at hn; subst hn; exact ⟨bk, hb, guarded_ok _ _ _ h⟩
-  case getVersioning b =>
-    obtain ⟨bk, hb, h⟩ := withBucket_ok _ _ _ hok
-    intro n hn; simp at hn; subst hn; exact ⟨bk, hb, guarded_ok _ _ _ h⟩
-  case putObject b k p nv =>
-    obtain ⟨bk, hb, h⟩ := withBucket_ok _ _ _ hok
-    intro n hn; simp at hn; subst hn; exact ⟨bk, hb, guarded_ok _ _ _ h⟩
-  case getObject b k vid =>
-    obtain ⟨bk, hb, h⟩ := withBucket_ok _ _ _ hok
-    intro n hn; simp only [List.mem_singleton] at hn; subst hn; exact ⟨bk, hb, guarded_ok _ _ _ h⟩
-  case headObject b k vid =>
-    obtain ⟨bk, hb, h⟩ := withBucket_ok _ _ _ hok
-    intro n hn; simp at hn; subst hn; exact ⟨bk, hb, guarded_ok _ _ _ h⟩
-  case deleteObject b k vid bp nv =>
-    obtain ⟨bk, hb, h⟩ := withBucket_ok _ _ _ hok
-    intro n hn; simp at hn; subst hn; exact ⟨bk, hb, guarded_ok _ _ _ h⟩
   case deleteObjects b keys bp nvs =>
     obtain ⟨bk, hb, h⟩ := withBucket_ok _ _ _ hok
     have hnone := guarded_ok _ _ _ h
@@ -148,30 +135,14 @@ theorem success_implies_granted (cfg : Cfg) (s : State) (w : Who) (now : Int) (o
     exact hnone k ⟨(k, v), hkv, rfl⟩
   case copyObject sb sk svid b k rep nv =>
     obtain ⟨bk, hb, h⟩ := withBucket_ok _ _ _ hok
-    have hnone := guarded_ok _ _ _ h
-    simp only [hnr, hna, Bool.or_self, Bool.false_eq_true, if_false] at hnone
-    split at hnone
-    · simp at hnone
-    · rename_i hro
-      split at hnone
-      · simp at hnone
-      · rename_i hdst
-        split at hnone
-        · simp at hnone
-        · rename_i sbk hsb
-          intro n hn; simp at hn
-          rcases hn with rfl | rfl
-          · exact ⟨bk, hb, hdst⟩
-          · exact ⟨sbk, hsb, hnone⟩
-  case putObjectTagging b k t =>
+    exact copy_chk cfg s w bk b k sb sk hnr hna hb (guarded_ok _ _ _ h)
+  case uploadPartCopy b k id num sb sk svid rg et =>
     obtain ⟨bk, hb, h⟩ := withBucket_ok _ _ _ hok
-    intro n hn; simp at hn; subst hn; exact ⟨bk, hb, guarded_ok _ _ _ h⟩
-  case getObjectTagging b k =>
+    exact copy_chk cfg s w bk b k sb sk hnr hna hb (guarded_ok _ _ _ h)
+  all_goals
     obtain ⟨bk, hb, h⟩ := withBucket_ok _ _ _ hok
-    intro n hn; simp at hn; subst hn; exact ⟨bk, hb, guarded_ok _ _ _ h⟩
-  case deleteObjectTagging b k =>
-    obtain ⟨bk, hb, h⟩ := withBucket_ok _ _ _ hok
-    intro n hn; simp at hn; subst hn; exact ⟨bk, hb, guarded_ok _ _ _ h⟩
+    intro n hn; simp only [List.mem_singleton] at hn; subst hn
+    exact ⟨bk, hb, guarded_ok _ _ _ h⟩
 
 /-- **What a grant means** for a caller that is neither root nor admin, outside read-only mode:
 with a policy set, exactly the policy decides (some Allow statement matches caller, action and
